@@ -52,6 +52,10 @@ func EnumCase(path, in string, data interface{}, enum interface{}, caseSensitive
 	for i := 0; i < val.Len(); i++ {
 		ele := val.Index(i)
 		enumValue := ele.Interface()
+		if data == nil && enumValue == nil {
+			// a null enum value matches a null instance
+			return nil
+		}
 		if data != nil {
 			if reflect.DeepEqual(data, enumValue) {
 				return nil
